@@ -101,6 +101,16 @@ func loadAdvPKI() (*advPKI, error) {
 			wc := mk(adv.rogue, usage[0], "localhost", ok0, ok1)
 			wc.Certificate = append(wc.Certificate, adv.rogue.der)
 			m["untrusted_with_ca"] = wc
+			// self-signed, carrying the trusted root's subject and subject key identifier (another key)
+			if lk, e := sm2.GenerateKey(rand.Reader); !fail(e) {
+				lt := &x509.Certificate{SerialNumber: nextSerial(), Subject: adv.ca.cert.Subject, SubjectKeyId: adv.ca.cert.SubjectKeyId, AuthorityKeyId: adv.ca.cert.SubjectKeyId,
+					NotBefore: ok0, NotAfter: ok1, KeyUsage: usage[0] | x509.KeyUsageCertSign, ExtKeyUsage: eku, DNSNames: []string{"localhost"},
+					BasicConstraintsValid: true, IsCA: true, SignatureAlgorithm: x509.SM2WithSM3}
+				if lder, e := x509.CreateCertificate(lt, lt, &lk.PublicKey, lk); !fail(e) {
+					m["lookalike_root"] = gmtls.Certificate{Certificate: [][]byte{lder}, PrivateKey: lk}
+				}
+			}
+			m["noipsan"] = m["good"]
 			m["expired"] = mk(adv.ca, usage[0], "localhost", now.Add(-48*time.Hour), now.Add(-24*time.Hour))
 			m["notyet"] = mk(adv.ca, usage[0], "localhost", now.Add(24*time.Hour), now.Add(48*time.Hour))
 			m["wrongname"] = mk(adv.ca, usage[0], "other.example", ok0, ok1)
@@ -196,6 +206,19 @@ func (p *advPKI) makeTLS(now time.Time) error {
 		"wrongname":         mk(ca, "other.example", both, ok0, ok1),
 		"wrongeku":          mk(ca, "localhost", []stdx509.ExtKeyUsage{stdx509.ExtKeyUsageClientAuth}, ok0, ok1),
 	}
+	if lk, err := rsa.GenerateKey(rand.Reader, 2048); err != nil {
+		return err
+	} else {
+		lt := &stdx509.Certificate{SerialNumber: nextSerial(), Subject: ca.cert.Subject, SubjectKeyId: ca.cert.SubjectKeyId, AuthorityKeyId: ca.cert.SubjectKeyId,
+			NotBefore: ok0, NotAfter: ok1, DNSNames: []string{"localhost"}, ExtKeyUsage: both, IsCA: true, BasicConstraintsValid: true,
+			KeyUsage: stdx509.KeyUsageDigitalSignature | stdx509.KeyUsageKeyEncipherment | stdx509.KeyUsageCertSign}
+		lder, err := stdx509.CreateCertificate(rand.Reader, lt, lt, &lk.PublicKey, lk)
+		if err != nil {
+			return err
+		}
+		p.tlsSrv["lookalike_root"] = gmtls.Certificate{Certificate: [][]byte{lder}, PrivateKey: lk}
+	}
+	p.tlsSrv["noipsan"] = p.tlsSrv["good"]
 	p.tlsCli = map[string]gmtls.Certificate{
 		"good":      mk(ca, "client", both, ok0, ok1),
 		"untrusted": mk(rogue, "client", both, ok0, ok1),
@@ -416,6 +439,9 @@ func runAdv(s *advScenario, replay *advReplay, capture *advReplay) (advObs, erro
 		cc = &gmtls.Config{RootCAs: p.tlsRoots, ServerName: "localhost", CipherSuites: suites, InsecureSkipVerify: !s.Verify, MinVersion: gmtls.VersionTLS12, MaxVersion: gmtls.VersionTLS12}
 		sc.ClientCAs = p.tlsClientRoots
 		cliCerts = p.tlsCli
+	}
+	if s.SignCert == "noipsan" || s.EncCert == "noipsan" {
+		cc.ServerName = "192.0.2.10" // an IP literal: the certificate must carry it as an IP subject alternative name
 	}
 	switch s.Policy {
 	case "none":
